@@ -355,6 +355,18 @@ func genC01(e *emitter, tier string, seed uint64) map[string]interface{} {
 			p2.pairs = [][2]item{{item{data: []byte("z")}, item{rep: true, b: 'Z', n: rest2 - rest2/2}}, {item{data: []byte("a")}, item{data: []byte("x")}},
 				{item{data: []byte("m")}, item{rep: true, b: 'M', n: rest2 / 2}}}
 			overBudgetCase(e, p2, total)
+			for _, kl := range []int{127, 128} {
+				for _, vl := range []int{127, 128, 3} {
+					p3 := mk(2, types[rg.intn(3)], false, 0, 4)
+					lastK := append([]byte("z"), bytes.Repeat([]byte("k"), kl-1)...)
+					lastV := bytes.Repeat([]byte("w"), vl)
+					lastSize := len(encStr(lastK)) + len(encStr(lastV))
+					fixed3 := len(encStr([]byte("a"))) + 2 + len(encStr([]byte("m"))) + 2 + lastSize
+					rest3 := total - fixed3
+					p3.pairs = [][2]item{{item{data: lastK}, item{data: lastV}}, {item{data: []byte("a")}, item{rep: true, b: 'A', n: rest3 - rest3/2}}, {item{data: []byte("m")}, item{rep: true, b: 'M', n: rest3 / 2}}}
+					overBudgetCase(e, p3, total)
+				}
+			}
 		}
 	}
 	// unrepresentable packets: unknown type
